@@ -261,6 +261,12 @@ func (f *fields) array() []value {
 func (f *fields) del(name string) bool {
 	_, exists := f.d[name]
 	if exists {
+		// a removed sub-config no longer belongs to this config: reset its
+		// context, so that Path/Parent do not report the old place and the
+		// sub-config gets its new place when it is attached again.
+		if sub, ok := f.d[name].(cfgSub); ok {
+			sub.c.ctx = context{}
+		}
 		delete(f.d, name)
 	}
 	return exists
@@ -270,6 +276,11 @@ func (f *fields) delAt(i int) bool {
 	a := f.a
 	if i < 0 || len(a) <= i {
 		return false
+	}
+
+	// see del: a removed sub-config is detached
+	if sub, ok := a[i].(cfgSub); ok {
+		sub.c.ctx = context{}
 	}
 
 	copy(a[i:], a[i+1:])
